@@ -1,2 +1,117 @@
-(* C18 - property theorems only. *)
-From HV Require Import Prelude BpText C18_Model C18_Proofs.
+(* C18 - property theorems only (proofs: C18_Proofs, C18_ProofsCheck). *)
+From HV Require Import Prelude BpText C18_Model C18_Check C18_Proofs C18_ProofsCheck.
+
+(* The result is exactly the two strands of the named sample, wherever its sections sit in
+   the file and whatever the name (underscores included): lines of other samples (pre, post)
+   never contribute. *)
+Theorem C18_blocks_are_samples_lines :
+  forall (F : Type) (parse_flt : str -> res F) (parse_int : str -> res Z) (eps0 : F) (plus_eps : F -> F)
+         (name : str) (pre l1 l2 post : list (list str)),
+  Forall (foreign_header name) pre ->
+  Forall not_header l1 -> Forall not_header l2 ->
+  (post = [] \/ exists h r, post = [h] :: r /\ good_header h) ->
+  parse_blocks F parse_flt parse_int eps0 plus_eps name
+    (pre ++ [name ++ sfx_1] :: l1 ++ [name ++ sfx_2] :: l2 ++ post) =
+  bind (blocks_of F parse_flt parse_int eps0 plus_eps l1) (fun b1 =>
+  bind (blocks_of F parse_flt parse_int eps0 plus_eps l2) (fun b2 => Ok [b1; b2])).
+Proof. exact blocks_are_samples_lines. Qed.
+Print Assumptions C18_blocks_are_samples_lines.
+
+(* ... one block per line in file order with the file's label, chromosome and cM end; the
+   first block of a chromosome starts at 0.0001, every other at the previous file end + 0.0001 *)
+Theorem C18_blocks_of_spec :
+  forall (F : Type) (parse_flt : str -> res F) (parse_int : str -> res Z) (eps0 : F) (plus_eps : F -> F)
+         (ls : list (list str)) (bs : list (hblock F)),
+  blocks_of F parse_flt parse_int eps0 plus_eps ls = Ok bs ->
+  Forall2 (line_block F parse_flt parse_int) ls bs /\ start_rule F eps0 plus_eps None bs.
+Proof. exact blocks_of_spec. Qed.
+Print Assumptions C18_blocks_of_spec.
+
+Theorem C18_blocks_example :
+  let name := [97; 95; 98] in
+  let pre := [[[111; 95; 49]]; [[80]; [1]; [5]; [9]]; [[111; 95; 50]]] in
+  let l1 := [[[80]; [1]; [5]; [10]]; [[81]; [1]; [6]; [20]]; [[80]; [2]; [7]; [5]]] in
+  let l2 := [[[81]; [2]; [7]; [30]]] in
+  let post := [[[122; 95; 49]]; [[80]; [1]; [5]; [9]]] in
+  Forall (foreign_header name) pre /\ Forall not_header l1 /\ Forall not_header l2 /\
+  parse_blocks Z toy_num toy_num 1 (fun x => x + 1) name
+    (pre ++ [name ++ sfx_1] :: l1 ++ [name ++ sfx_2] :: l2 ++ post)
+  = Ok [[mkhb [80] 1 1 10; mkhb [81] 1 11 20; mkhb [80] 2 1 5]; [mkhb [81] 2 1 30]].
+Proof. exact blocks_example. Qed.
+Print Assumptions C18_blocks_example.
+
+(* a sample no header names: no blocks, and PlotKaryogram exits with an error *)
+Theorem C18_absent_sample_empty :
+  forall (F : Type) (parse_flt : str -> res F) (parse_int : str -> res Z) (eps0 : F) (plus_eps : F -> F)
+         (ylo yhi : Z -> Z -> F) (fzero : F) (name : str) (lines : list (list str)),
+  Forall (foreign_header name) lines ->
+  parse_blocks F parse_flt parse_int eps0 plus_eps name lines = Ok [] /\
+  get_blocks F parse_flt parse_int eps0 plus_eps name lines None = Ok [] /\
+  plot F parse_flt parse_int eps0 plus_eps ylo yhi fzero name lines None = Err E_Exit /\
+  (forall cen, exists k, plot F parse_flt parse_int eps0 plus_eps ylo yhi fzero name lines cen = Err k).
+Proof. exact absent_sample_empty. Qed.
+Print Assumptions C18_absent_sample_empty.
+
+(* with a chromosome-ends table the result differs from the plain one exactly at the last
+   block of every maximal run of one chromosome, whose end becomes the table's value *)
+Theorem C18_extension_only_last :
+  forall (F : Type) (ends : list (Z * F)) (l l' : list (hblock F)),
+  ext_strand F false ends l = Ok l' ->
+  length l' = length l /\
+  forall i b, nth_error l i = Some b ->
+    exists b', nth_error l' i = Some b' /\ same_but_end F b b' /\
+      ((run_end F l i b /\ end_of F ends (h_chrom b) = Ok (h_end b')) \/
+       (~ run_end F l i b /\ h_end b' = h_end b)).
+Proof. exact extension_only_last. Qed.
+Print Assumptions C18_extension_only_last.
+
+Theorem C18_extension_total :
+  forall (F : Type) (ends : list (Z * F)) (l : list (hblock F)),
+  l <> [] -> (forall b, In b l -> exists e, end_of F ends (h_chrom b) = Ok e) ->
+  exists l', ext_strand F false ends l = Ok l'.
+Proof. exact extension_total. Qed.
+Print Assumptions C18_extension_total.
+
+(* the pinned tree wrote the final chromosome's end to index tind - 1 *)
+Theorem C18_legacy_extension_refuted :
+  let l := [mkhb [89] 2 0 10; mkhb [67] 2 11 20] in
+  ext_strand Z true [(2, 99)] l = Ok [mkhb [89] 2 0 99; mkhb [67] 2 11 20] /\
+  ext_strand Z false [(2, 99)] l = Ok [mkhb [89] 2 0 10; mkhb [67] 2 11 99].
+Proof. exact legacy_extension_refuted. Qed.
+Print Assumptions C18_legacy_extension_refuted.
+
+Theorem C18_legacy_extension_single_refuted :
+  let l := [mkhb [89] 1 0 10; mkhb [67] 2 0 20] in
+  ext_strand Z true [(1, 77); (2, 99)] l = Ok [mkhb [89] 1 0 99; mkhb [67] 2 0 20] /\
+  ext_strand Z false [(1, 77); (2, 99)] l = Ok [mkhb [89] 1 0 77; mkhb [67] 2 0 99].
+Proof. exact legacy_extension_single_refuted. Qed.
+Print Assumptions C18_legacy_extension_single_refuted.
+
+(* one rectangle per returned block, strand 1 then strand 2, in order, with the block's
+   label and spanning start..end *)
+Theorem C18_plot_draws_blocks :
+  forall (F : Type) (parse_flt : str -> res F) (parse_int : str -> res Z) (eps0 : F) (plus_eps : F -> F)
+         (ylo yhi : Z -> Z -> F) (fzero : F) (name : str) (lines : list (list str))
+         (cen : option (list (list str))) (rs : list (str * list (F * F))),
+  plot F parse_flt parse_int eps0 plus_eps ylo yhi fzero name lines cen = Ok rs ->
+  exists s0 s1 rest,
+    get_blocks F parse_flt parse_int eps0 plus_eps name lines cen = Ok (s0 :: s1 :: rest) /\
+    Forall2 (rect_of F fzero) (s0 ++ s1) rs.
+Proof. exact plot_draws_blocks. Qed.
+Print Assumptions C18_plot_draws_blocks.
+
+(* soundness of the boolean checker evaluated on GetHaplotypeBlocks' return value *)
+Theorem C18_holds_blocks_sound :
+  forall k e1 e2 tb,
+  holds_blocks k = true ->
+  expectation (b_tab k) (b_name k) (b_lines k) (b_cen k) = Some (Some (e1, e2, tb)) ->
+  exists o1 o2, b_obs k = Ok [o1; o2] /\
+    Forall2 (entry_block true) e1 o1 /\ Forall2 (entry_block true) e2 o2.
+Proof. exact holds_blocks_sound. Qed.
+Print Assumptions C18_holds_blocks_sound.
+
+Theorem C18_holds_blocks_absent_sound :
+  forall k, holds_blocks k = true ->
+  expectation (b_tab k) (b_name k) (b_lines k) (b_cen k) = Some None -> b_obs k = Ok [].
+Proof. exact holds_blocks_absent_sound. Qed.
+Print Assumptions C18_holds_blocks_absent_sound.
